@@ -98,6 +98,7 @@ fn main() {
         "c09_split" => c09::split(&v),
         "c12_profile" => c12::profile(&v),
         "c12_callsite" => c12::callsite(&v),
+        "c12_repo_root" => c12::repo_root(&v),
         "c16_tokenize" => c16::tokenize(&v),
         "c16_lines" => c16::lines(&v),
         "c16_update" => c16::update(&v),
